@@ -4,3 +4,5 @@ import CheetahModel.Properties.C20
 #print axioms C20.bpm_centroid
 #print axioms C20.reading_is_last_beam
 #print axioms C20.inactive_pass
+#print axioms C20.histogram_sums_to_charge_inside
+#print axioms C20.histogram_nonneg
